@@ -506,6 +506,13 @@ class World:
             FeatureGates.set(op["feature"], op["value"])
             self.expected_gates[0 if op["feature"] == "sourcemap_enabled" else 1] = op["value"]
             return ("ok", None, None)
+        if k == "drop":
+            # the user code that owned this (noise) program lets go of it
+            env = self.envs.pop(op["p"], None)
+            self.retired.add(op["p"])
+            del env
+            gc.collect()
+            return ("ok", None, None)
         if k == "testctx":
             # someone's unit test in the same process: PyTeal's public comparison contexts
             import contextlib as _cl
